@@ -168,8 +168,8 @@ impl Prop for C06 {
                 Space { name: "wasm", size: 1600, exhaustive: false, chunk: 20, case_timeout_s: 120.0, what: "the same on the WASM runtime (payload built by the CLI's own builder)" },
             ],
             Tier::Thorough => vec![
-                Space { name: "vm", size: 50_000, exhaustive: false, chunk: 200, case_timeout_s: 60.0, what: "generated stateful programs x split points x 1-4 swaps on the VM" },
-                Space { name: "wasm", size: 12_000, exhaustive: false, chunk: 40, case_timeout_s: 120.0, what: "the same on the WASM runtime (payload built by the CLI's own builder)" },
+                Space { name: "vm", size: 150_000, exhaustive: false, chunk: 200, case_timeout_s: 60.0, what: "generated stateful programs x split points x 1-4 swaps on the VM" },
+                Space { name: "wasm", size: 36_000, exhaustive: false, chunk: 40, case_timeout_s: 120.0, what: "the same on the WASM runtime (payload built by the CLI's own builder)" },
             ],
         }
     }
